@@ -122,4 +122,56 @@ numbering is what `symnum`, symbol comparison and `gensym` names expose. -/
 def internBuiltins {V} (table : List String) (funcs : List (String × V)) : List String :=
   (sortedKeys funcs).foldl intern table
 
+/-! ### effect classes of a loop body (what `Generated.MapRanges.Effect` / `Shape` stand for)
+
+A walk is `order.foldl step s`: the per-element effect `step` folded over the iteration
+order. It is order-free exactly when the effects of any two elements commute
+(`Props.C20.perm_invariant_of_commute`). The bodies below are the NON-commuting classes; each
+has a `…_order_dependent` theorem in Props/C20.lean, which is why the inventory refuses them. -/
+
+/-- The general shape of a range-over-map loop. -/
+def walk {S E} (step : S → E → S) (s : S) (order : List E) : S := order.foldl step s
+
+/-- Body interns the key: `for k := range m { env.MakeSymbol(k) }` — symbols are numbered in
+iteration order. -/
+def internWalk {V} (table : List String) (m : List (String × V)) : List String :=
+  walk (fun t p => intern t p.1) table m
+
+/-- `symnum`: the number of a symbol = position in the table + 1 (0 = not interned). -/
+def symnum (table : List String) (name : String) : Nat :=
+  match table.idxOf? name with
+  | some i => i + 1
+  | none => 0
+
+/-- Body appends to a slice that nobody sorts afterwards (`ks = append(ks, k)`; also a
+`KeyOrder` / registry list held in a struct field). -/
+def collectUnsorted {K V} (m : List (K × V)) : List K :=
+  walk (fun acc p => acc ++ [p.1]) [] m
+
+/-- Body returns the loop variable on the first hit. -/
+def firstKey {K V} (m : List (K × V)) : Option K :=
+  match m with
+  | [] => none
+  | (k, _) :: _ => some k
+
+/-- Body prints. -/
+def emitWalk {V} (m : List (String × V)) : String :=
+  walk (fun out p => out ++ p.1 ++ ";") "" m
+
+/-! ### the JSON/msgpack decoder (`decodeGoToSexpHelper`, case `map[string]interface{}`)
+
+`sortedMapKey, sortedMapVal := makeSortedSlicesFromMap(val)`, then one pass over the SORTED
+slices: member `zKeyOrder` → its value is decoded with `preferSym = true` (every string in it
+is interned, in array order); member `Atype` → nothing interned; any other member → the name is
+interned, then its value is decoded (which interns whatever the nested value holds).
+`namesIn v` / `symsIn v` abstract what decoding a member VALUE interns, in order (a function
+of the value: the nested decode is this same function one level down). -/
+
+/-- The symbol table after decoding one JSON object whose members arrive in `m`'s order. -/
+def decodeIntern {V} (namesIn symsIn : V → List String) (table : List String) (m : List (String × V)) : List String :=
+  (collectSort (fun a b => decide (a < b)) m).foldl (fun t p =>
+    if p.1 = "zKeyOrder" then (symsIn p.2).foldl intern t
+    else if p.1 = "Atype" then t
+    else (namesIn p.2).foldl intern (intern t p.1)) table
+
 end ZygoVerif.MapWalk
